@@ -97,6 +97,10 @@ type Conn struct {
 	// in Conn.Write.
 	activeCall int32
 
+	// fatal 记录连接上第一个致命错误（任一方向）：此后 Read 和 Write 都返回该错误，
+	// 不再交付已缓冲的数据，也不再发送。close_notify（io.EOF）和超时不在其列。
+	fatal atomic.Value // connFatal
+
 	tmp [16]byte
 }
 
@@ -1033,6 +1037,29 @@ var (
 // must be set for both Read and Write before Write is called when the handshake
 // has not yet completed. See SetDeadline, SetReadDeadline, and
 // SetWriteDeadline.
+type connFatal struct{ err error }
+
+// noteFatal 将一个方向上出现的致命错误记为整个连接的错误。
+func (c *Conn) noteFatal(err error) {
+	if err == nil || err == io.EOF || err == errShutdown {
+		return
+	}
+	if ne, ok := err.(net.Error); ok && ne.Timeout() {
+		return
+	}
+	if c.fatal.Load() == nil {
+		c.fatal.Store(connFatal{err})
+	}
+}
+
+// fatalError 返回连接上已记录的致命错误。
+func (c *Conn) fatalError() error {
+	if f, ok := c.fatal.Load().(connFatal); ok {
+		return f.err
+	}
+	return nil
+}
+
 func (c *Conn) Write(b []byte) (int, error) {
 	// interlock with Close below
 	for {
@@ -1056,6 +1083,10 @@ func (c *Conn) Write(b []byte) (int, error) {
 	if err := c.out.err; err != nil {
 		return 0, err
 	}
+	// 读方向上的致命错误（对端的致命告警、记录中途断开等）之后不再发送
+	if err := c.fatalError(); err != nil {
+		return 0, err
+	}
 
 	if !c.handshakeComplete() {
 		return 0, alertInternalError
@@ -1066,6 +1097,7 @@ func (c *Conn) Write(b []byte) (int, error) {
 	}
 
 	n, err := c.writeRecordLocked(recordTypeApplicationData, b)
+	c.noteFatal(err)
 	return n, c.out.setErrorLocked(err)
 	//return n + m, c.out.setErrorLocked(err)
 }
@@ -1093,14 +1125,22 @@ func (c *Conn) Read(b []byte) (int, error) {
 	c.in.Lock()
 	defer c.in.Unlock()
 
+	// 致命错误（任一方向）之后不再交付任何数据，包括此前已缓冲的明文
+	if err := c.fatalError(); err != nil {
+		return 0, err
+	}
+
 	for c.input.Len() == 0 {
 		if err := c.readRecord(); err != nil {
+			c.noteFatal(err)
 			return 0, err
 		}
 		// 握手完成后收到握手消息（重协商）：TLCP 不支持重协商，必须拒绝；
 		// 否则这些记录会无限累积在 c.hand 中且 Read 永不返回。
 		if c.hand.Len() > 0 {
-			return 0, c.in.setErrorLocked(c.sendAlert(alertNoRenegotiation))
+			err := c.in.setErrorLocked(c.sendAlert(alertNoRenegotiation))
+			c.noteFatal(err)
+			return 0, err
 		}
 	}
 	n, _ := c.input.Read(b)
@@ -1115,7 +1155,14 @@ func (c *Conn) Read(b []byte) (int, error) {
 	if n != 0 && c.input.Len() == 0 && c.rawInput.Len() > 0 &&
 		recordType(c.rawInput.Bytes()[0]) == recordTypeAlert {
 		if err := c.readRecord(); err != nil {
+			c.noteFatal(err)
 			return n, err // will be io.EOF on closeNotify
+		}
+		// 预读时遇到握手记录（重协商）：同样必须拒绝，否则错误会在其后的应用数据之后才报告
+		if c.hand.Len() > 0 {
+			err := c.in.setErrorLocked(c.sendAlert(alertNoRenegotiation))
+			c.noteFatal(err)
+			return n, err
 		}
 	}
 
